@@ -158,6 +158,13 @@ def pipeline_world(variant):
     for i in range(3):
         reads.append(W.read_of("k1_%d" % i, "chr1", W.exons(1000, [0, 1, 2, 3, 4])))
         reads.append(W.read_of("k4_%d" % i, "chr2", W.exons(1000, [0, 1, 2, 3]), strand="-"))
+    # the known isoform T1 is supported by a second full-length path: reads whose first intron is shifted as a whole by 10 bp
+    ks = W.exons(1000, [0, 1, 2, 3, 4])
+    ks[0][1] += 10
+    ks[1][0] += 10
+    W.add_sites_for_blocks(w, "chr1", ks[:2], "+")
+    for i in range(4):
+        reads.append(W.read_of("ks_%d" % i, "chr1", ks))
     # novel in catalog on chr1: skip slot 3; two novel isoforms sharing a novel exon (slot 5 is unannotated) on chr1
     nov_a = W.exons(1000, [0, 1, 2, 4])
     nov_b = W.exons(1000, [0, 1, 2, 3, 4, 5])
@@ -241,7 +248,7 @@ def gtf_id_errors(path, ref_transcripts=None, ref_genes=None, exon_table=None, l
 
 
 READ_SETS = {"all": None,
-             "R0": ("k1", "k4", "na", "nd", "ig1", "h1", "f1", "f2"),
+             "R0": ("k1", "ks", "k4", "na", "nd", "ig1", "h1", "f1", "f2"),
              "R1": ("k1", "k4", "nb", "ig2", "h2", "f1"),
              "R2": ("k1", "k4", "nc", "ne", "ig1", "ig2", "f2"),
              # R3 creates ids on the second chromosome only, R4 then builds novel models on both (per-chromosome reservations differ)
